@@ -546,6 +546,51 @@ impl Calendar {
         }
     }
 
+    /// The code of the `month`-th month of the given year: `M<month>` unless a
+    /// leap month comes earlier in that year (then `M<month - 1>`), or the month
+    /// is itself the leap month (`M<month - 1>L`).
+    pub(crate) fn month_code_from_ordinal(
+        &self,
+        era_year: &types::EraYear,
+        month: u8,
+    ) -> TemporalResult<MonthCode> {
+        // Only the lunisolar calendars have leap months; everywhere else the
+        // ordinal is the number in the code.
+        if !matches!(
+            self.0 .0.kind(),
+            AnyCalendarKind::Chinese | AnyCalendarKind::Dangi | AnyCalendarKind::Hebrew
+        ) {
+            let code = types::month_to_month_code(month)?;
+            code.validate(self)?;
+            return Ok(code);
+        }
+        let candidates = [
+            (month, false),
+            (month.saturating_sub(1), true),
+            (month.saturating_sub(1), false),
+        ];
+        for (number, leap) in candidates {
+            let Ok(code) = types::month_code_from_parts(number, leap) else {
+                continue;
+            };
+            if code.validate(self).is_err() {
+                continue;
+            }
+            let Ok(first_of_month) = self.0.date_from_codes(
+                self.icu_era(era_year),
+                self.icu_year(era_year),
+                IcuMonthCode(code.0),
+                1,
+            ) else {
+                continue;
+            };
+            if self.0.month(&first_of_month).ordinal == month {
+                return Ok(code);
+            }
+        }
+        Err(TemporalError::range().with_message("Month not in a valid range."))
+    }
+
     fn is_japanese(&self) -> bool {
         matches!(
             self.0 .0.kind(),
